@@ -51,6 +51,51 @@ def f05_signature(e):
     return False
 
 
+def count_var(e, v, skip=None):
+    """Occurrences of variable v in e, not counting the subtree `skip`."""
+    if e is skip or not isinstance(e, list) or not e:
+        return 0
+    if e[0] in ("var", "attr", "attr2"):
+        return 1 if e[1] == v else 0
+    return sum(count_var(x, v, skip) for x in e[1:] if isinstance(x, list))
+
+
+def exists_nodes(e, neg=False):
+    """(node, variable, body) of every existential in e; not_(for_all(v, c)) is rewritten by krrood into exists(v, not c)."""
+    if not isinstance(e, list) or not e:
+        return
+    if e[0] == "exists":
+        yield e, e[1], e[2]
+    if e[0] == "not" and isinstance(e[1], list) and e[1] and e[1][0] == "forall":
+        yield e, e[1][1], e[1][2]
+    for x in e[1:]:
+        if isinstance(x, list):
+            yield from exists_nodes(x)
+
+
+def f04_signature(cond, sel):
+    """Finding C01-F04: exists(v, c) reports one result per value of v and keeps only the first witness of the other
+    variables. Rows get lost when v is not selected, or when another variable of c is also needed outside this exists."""
+    for node, v, body in exists_nodes(cond):
+        if v not in sel:
+            return True
+        for w in ("x", "y"):
+            if w != v and count_var(body, w) and count_var(cond, w, skip=node):
+                return True
+    return False
+
+
+def exists_under_negation(e, neg=False):
+    """not_ over exists(v, ...) has no settled reading when v is selected (first-order: v is bound; krrood: for_all(v, not c))."""
+    if not isinstance(e, list) or not e:
+        return False
+    if e[0] == "exists" and neg:
+        return True
+    if e[0] == "not":
+        return exists_under_negation(e[1], True)
+    return any(exists_under_negation(x, neg) for x in e[1:] if isinstance(x, list))
+
+
 def main():
     ctx = Ctx("C01", "model_checking")
     thorough = ctx.tier == "thorough"
@@ -79,7 +124,11 @@ def main():
             cases.append(c)
     results = replay("eql", cases)
     ctx.replayed = sum(len(c["cases"]) for c in cases)
+    unsettled = 0
     for c, r in zip(cases, results):
+        if c["family"] == "quant" and exists_under_negation(c["cond"]):
+            unsettled += 1
+            continue
         for k, (cs, rows, err) in enumerate(zip(c["cases"], r["rows"], r["errors"])):
             exp = {tuple(x) for x in cs["exp"]}
             got = {tuple(x) for x in rows}
@@ -87,7 +136,10 @@ def main():
             ctx.case(key, size(c["cond"]) > 1 and bool(exp),
                      sample={"family": c["family"], "cond": c["cond"], "dom": cs["dom"], "sel": cs["sel"], "expected": sorted(exp),
                              "observed": sorted(got)})
-            if not err and exp != got and not (got - exp) and c["family"] == "quant" and f05_signature(c["cond"]):
+            missing_only = not err and exp != got and not (got - exp) and c["family"] == "quant"
+            if missing_only and f04_signature(c["cond"], cs["sel"]):
+                ctx.known_finding("C01-F04", {"cond": c["cond"], "dom": cs["dom"], "missing": sorted(exp - got)})
+            elif missing_only and f05_signature(c["cond"]):
                 ctx.known_finding("C01-F05", {"cond": c["cond"], "dom": cs["dom"], "missing": sorted(exp - got)})
             elif err or exp != got:
                 ctx.violation({"family": c["family"], "cond": c["cond"], "dom": cs["dom"], "sel": cs["sel"], "variant": c["variant"],
@@ -95,6 +147,7 @@ def main():
                                "missing": sorted(exp - got), "extra": sorted(got - exp)},
                               note="rows returned differ from the satisfying assignments")
     ctx.cov["conditions"] = len(cases)
+    ctx.cov["conditions_skipped_exists_under_negation"] = unsettled
     ctx.exhaustive = False
     ctx.assumptions = ["outside the conjunctive / else-if fragment, cases in which a condition variable has an empty domain are "
                        "not generated (strict vs short-circuit reading not settled by the statement)",
